@@ -8,7 +8,7 @@ def check(rep):
     ctx = Ctx(rep)
     ER.rule_grid(ctx)
     from . import choicerules as CR
-    if not CR.report(ctx, "C03", facets=("interior", "tie", "rounding")):
+    if not CR.report(ctx, "C03", facets=("interior", "tie", "rounding", "exact")):
         ER.rule_choice_search(ctx)
     PR.rule_compiles(ctx, rid="C03.SHAPE-COMPILES", strict=False)
     # population and weights position-aligned, in declared order, passed as weights=
